@@ -400,7 +400,7 @@ class FCtx:
 class FuncSpec:
     def __init__(self):
         self.requires = []; self.ensures = []; self.assigns = []; self.loops = {}
-        self.sig = None; self.name = None; self.src = None; self.used = False
+        self.sig = None; self.name = None; self.src = None; self.used = False; self.optional = False
         self.frees = []
         self.modular_conv = False   # @modular_conversions: integer conversions in this function wrap (no conversion-check)
 
@@ -441,6 +441,9 @@ def parse_spec_text(text, src='<spec>'):
                 curloop = LoopSpec(); cur.loops[int(rest)] = curloop
             elif d == 'end':
                 cur = None; curloop = None
+            elif d == 'optional':
+                if cur is None: raise Unsupported('%s: @optional outside @function' % src)
+                cur.optional = True
             elif d == 'modular_conversions':
                 if cur is None: raise Unsupported('%s: @modular_conversions outside @function' % src)
                 cur.modular_conv = True
@@ -660,7 +663,8 @@ class Translator:
                 # a non-type argument printed as an enumerator name ('as_type<nmtools::index::VERTICAL>'): clang's JSON records
                 # only its integer value for the specialization
                 ev = self._enumerator_values()
-                eargs = [str(ev[a]) if a in ev else a for a in args]
+                # (likewise a bool non-type argument: printed 'true'/'false' in type strings, recorded as value -1/0 -- a 1-bit APSInt)
+                eargs = [str(ev[a]) if a in ev else {'true': '-1', 'false': '0'}.get(a, a) for a in args]
                 if eargs != args:
                     cands = [d for (a, d) in self.templ[base] if a == eargs]
                     if len(cands) > 1:
@@ -998,11 +1002,11 @@ class Translator:
         return ct
 
     def _record_skey(self, decl):
-        q = self.ast.qualname(decl)
+        """stable key (no file paths, no line numbers) used to hash-disambiguate colliding C identifiers"""
         enc = self.enclosing_fn(decl)
         if enc is not None:
-            return '%s|%s|%s' % (enc.get('mangledName'), q, self.lambda_stable_name(decl) if not decl.get('name') else '')
-        return q
+            return '%s|%s' % (enc.get('mangledName'), decl.get('name') or self.lambda_stable_name(decl))
+        return re.sub(r'\(anon@[^)]*\)', '(anon)', self.ast.qualname(decl))
 
     def _record_lines(self, decl, cname, ct):
         lines = []
@@ -1533,7 +1537,8 @@ class Translator:
             # generic lambda, whose collision suffix is not stable across header edits)
             if s.name.endswith('*') and '::' not in s.name and cname.startswith(s.name[:-1]): hits.append(s); continue
             if self._qual_match(s.name, q):
-                if s.sig is None or s.sig in cname:
+                # `[substring]` of the C name; `[suffix$]` anchors at the end (overloads whose C name is a prefix of another's)
+                if s.sig is None or (cname.endswith(s.sig[:-1]) if s.sig.endswith('$') else s.sig in cname):
                     hits.append(s)
         if not hits: return None
         if len(hits) == 1: return hits[0]
@@ -2765,6 +2770,18 @@ class Translator:
                 if t.endswith('*'): return '8UL'
                 return ('%dUL' % LP64_SIZEOF[t]) if t in LP64_SIZEOF else m.group(0)
             return '%s(%s)' % (callee['name'], ', '.join(re.sub(r'sizeof\(([A-Za-z_ \*]+)\)', _szlit, self.ex(a, fctx)) for a in args))
+        if (callee.get('name') or '').startswith('verif_abs_') and callee.get('kind') == 'FunctionDecl' and self.find_definition(callee) is None \
+                and (self.ast.par(callee) or {}).get('kind') in ('TranslationUnitDecl', 'LinkageSpecDecl'):
+            # abstract operation of the instantiation TU (DESIGN 4.6): an `extern "C"` scalar function `verif_abs_*` without a body.
+            # The call is emitted as is and its prototype declared; its meaning (an uninterpreted function) comes from the spec prelude.
+            if not hasattr(self, 'abs_protos'): self.abs_protos = {}
+            if callee['name'] not in self.abs_protos:
+                ps = [c for c in callee.get('inner', []) or [] if c.get('kind') == 'ParmVarDecl']
+                rt = callee['type']['qualType'].split('(')[0].strip()
+                cts = [self.ctype(p.get('type'), fctx, p) for p in ps] + [self.ctype_str(rt, fctx, callee)]
+                if any(c.kind != 'builtin' for c in cts): fail('abstract extern with a non-scalar signature', callee)
+                self.abs_protos[callee['name']] = 'extern %s %s(%s);' % (cts[-1].c, callee['name'], ', '.join(c.c for c in cts[:-1]) or 'void')
+            return '%s(%s)' % (callee['name'], ', '.join(self.ex(a, fctx) for a in args))
         fn = self.request(callee, fctx)
         d = self.find_definition(callee)
         call = '%s(%s)' % (fn, ', '.join(self.args_for(d, args, fctx)))
@@ -2927,6 +2944,8 @@ class Translator:
         out.append(prelude_text)
         for nm in getattr(self, 'libc_used', []):
             out.append('extern %s;' % LIBC_PROTOS[nm])
+        for proto in getattr(self, 'abs_protos', {}).values():
+            out.append(proto)
         out.extend(self.struct_defs)
         for nm, tyd in self.top_typedefs:
             try:
@@ -2966,7 +2985,7 @@ def main():
             tr.add_specs(specs); sp_pre += pre + '\n'
         tr.run(a.entry)
         for s in tr.specs:
-            if not s.used:
+            if not s.used and not s.optional:
                 raise Unsupported('must-fire: spec for %s [%s] in %s matched no translated function' % (s.name, s.sig, s.src))
         text = tr.output(open(a.prelude).read() if a.prelude else '', sp_pre)
     except Unsupported as e:
